@@ -206,3 +206,15 @@ func init() {
 		mutant{Name: "int-width-literal-64", Prop: "C03", File: "interp/typecheck.go", Old: "\treflect.Int:     bits.UintSize,\n", New: "\treflect.Int:     64,\n", Rule: "R03.3", Key: "bitlen/Int/platform-dependent"},
 	)
 }
+
+func init() {
+	addMutants(
+		mutant{Name: "benign-recover-through-local", Prop: "C06", File: "interp/run.go", Old: "\t\tf.recovered = recover()\n\t\tdeferred := f.deferred\n", New: "\t\tr := recover()\n\t\tf.recovered = r\n\t\tdeferred := f.deferred\n", Benign: true},
+		mutant{Name: "repanic-with-stale-local", Prop: "C06", File: "interp/run.go", Old: "\t\tf.recovered = recover()\n\t\tdeferred := f.deferred\n", New: "\t\tr := recover()\n\t\tf.recovered = r\n\t\tdeferred := f.deferred\n", More: [][2]string{{"\t\t\tf.mutex.Unlock()\n\t\t\tpanic(f.recovered)", "\t\t\tf.mutex.Unlock()\n\t\t\tpanic(r)"}}, Rule: "R06.4", Key: "runCfg/unwind/repanic"},
+		mutant{Name: "fixarg-skips-reference-kinds", Prop: "C06", File: "interp/run.go", Old: "\tif !v.CanSet() {\n\t\treturn v\n\t}\n\tc := reflect.New(v.Type()).Elem()", New: "\tif !v.CanSet() {\n\t\treturn v\n\t}\n\tswitch v.Kind() {\n\tcase reflect.Chan, reflect.Map, reflect.Ptr, reflect.Slice:\n\t\treturn v\n\t}\n\tc := reflect.New(v.Type()).Elem()", Rule: "R06.3", Key: "fixArg/copies-every-settable-value"},
+		mutant{Name: "smallest-float-truncated", Prop: "C14", File: "stdlib/go1_22_math.go", Old: "\"SmallestNonzeroFloat32\": reflect.ValueOf(constant.MakeFromLiteral(\"1.40129846432481707092372958328991613128026194187651577175706828388979108268586060148663818836212158203125e-45\"", New: "\"SmallestNonzeroFloat32\": reflect.ValueOf(constant.MakeFromLiteral(\"1.401298464324817070923729583289916131280261942e-45\"", Rule: "R14.1", Key: "math/math/SmallestNonzeroFloat32"},
+		mutant{Name: "watcher-waits-for-goroutine", Prop: "C09", File: "interp/program.go", Old: "\tcase <-ctx.Done():\n\t\tinterp.stop()\n\t\treturn reflect.Value{}, ctx.Err()", New: "\tcase <-ctx.Done():\n\t\tinterp.stop()\n\t\t<-done\n\t\treturn reflect.Value{}, ctx.Err()", Rule: "R09.4", Key: "ExecuteWithContext/watcher"},
+		mutant{Name: "args-default-on-empty", Prop: "C13", File: "interp/interp.go", Old: "if i.opt.args = options.Args; i.opt.args == nil {", New: "if i.opt.args = options.Args; len(i.opt.args) == 0 {", Rule: "R13.5", Key: "New/args-default"},
+		mutant{Name: "select-append-in-place", Prop: "C08", File: "interp/run.go", Old: "\t\tcases := make([]reflect.SelectCase, nbClause+1)\n\t\tcopy(cases, dirs)\n", New: "\t\tcases := append(dirs[:nbClause], reflect.SelectCase{})\n", Rule: "R08.1", Key: "_select/captured:dirs"},
+	)
+}
